@@ -352,7 +352,8 @@ func (io *IO) PreSign(e logiface.IPFSLogEntry) (logiface.IPFSLogEntry, error) { 
 
 type CoreAPI struct {
 	coreiface.CoreAPI
-	Peer peer.ID
+	Peer     peer.ID
+	DagStore *MemDag
 }
 
 type keyAPI struct {
